@@ -343,6 +343,12 @@ CORPUS = [
     dict(mode='b', events=[[L('ab'), ['s', '1']], [L('a'), ['s', '2']]], form='list', W=None, cb={}, script=[['d', 'a'], ['d', 'b'], ['E']], timeout=30),
     dict(mode='u', events=[[['re', 's', ['eol']], ['s', 'z']]], form='list', W=None, cb={}, script=[['d', 'abc'], ['E']], timeout=30),
     dict(mode='b', events=[[L('ab'), ['s', 'k']]], form='list', W=2, cb={}, script=[['d', 'xxa'], ['d', 'bya'], ['d', 'b'], ['E']], timeout=30),
+    # a prompt cut by a read boundary in front of a read of almost maxread characters; an occurrence that lies further back than
+    # maxread characters when it becomes complete: run() itself must not narrow the search
+    dict(mode='b', events=[[L('password:'), ['s', 'secret\n']]], form='list', W=None, cb={},
+         script=[['d', 'x' * 100 + 'passwor'], ['d', 'd:' + 'y' * 1997], ['d', 'tail'], ['E']], timeout=30),
+    dict(mode='u', events=[[L('go?'), ['f', 0]], [['E'], ['s', '']]], form='dict', W=None, cb={'0:0': ['s', 'y']},
+         script=[['d', 'g'], ['d', 'o' + '.' * 1999], ['d', '.' * 2000 + 'go'], ['d', '?' + '-' * 1999], ['E']], timeout=30),
 ]
 
 
